@@ -329,3 +329,34 @@ def assignments(scope, dom, limit=None, rs=None):
     else:
         for _ in range(limit):
             yield {v: d[rs.randint(len(d))] for v, d in zip(scope, doms)}
+
+
+def fingerprint(root):
+    """everything a read-only query must leave alone: structure, parameters (exact), node ids, and which objects they are."""
+    import json as _json
+    t = Table(root, renorm=False) if not _has_cont(root) else None
+    objs = post_order(root)
+    ids = [None if getattr(o, "id", None) is None else int(o.id) for o in objs]
+    if t is not None:
+        body = t.brief()
+    else:
+        body = [[type(o).__name__, [int(v) for v in o.scope], [repr(v) for k, v in sorted(getattr(o, "params_dict", lambda: {})().items())] if not o.children else
+                 [float(w) for w in getattr(o, "weights", [])]] for o in objs]
+    return _json.dumps([body, ids], default=str), [id(o) for o in objs]
+
+
+def _has_cont(root):
+    return any(isinstance(o, (Gaussian, Uniform, Isotonic)) for o in post_order(root))
+
+
+def unchanged(root, before, what, rep, extra=None):
+    """report if a read-only call changed the circuit; returns True when it is unchanged."""
+    try:
+        after = fingerprint(root)
+    except Exception as e:
+        after = (f"unreadable: {type(e).__name__}: {e}", None)
+    if after[0] != before[0] or (after[1] is not None and after[1] != before[1]):
+        rep.violation(dict(kind="read-only-call-changed-the-circuit", call=what, before=before[0][:1500], after=str(after[0])[:1500],
+                           **(extra or {})), True)
+        return False
+    return True
